@@ -766,7 +766,7 @@ def run_cardinality(tier='quick', seed=0):
              '(min,max) over {None,0..4} x 3 kinds x every ordered pair of child counts (count when set -> count when '
              'validated) in 0..5, children added/removed one at a time after the cardinality was set, validated at '
              'object and at document level; (c) persistence: every valid (min,max) and None x 3 kinds x XML/JSON/YAML; '
-             'distinct = (part, kind, route/format, setting class, count relation, outcome)',
+             'distinct = (part, kind, route/format, setting class, count relation, outcome)' % len(settings),
         exhaustive=True)
     agg = Agg()
     work = os.path.join(h.WORK, 'b_values')
